@@ -278,9 +278,18 @@ ANSI_PARTS = [None, None, '', 'red', 'bold;red', 'rgb(1,2,3)', 'bg_blue', '1;31'
 GOOD_ANSI = [None, None, '', 'red', 'bold;red', 'rgb(1,2,3)', 'bg_blue', '1;31', 'underline', 'fg_default', 'BOLD', 'faint']
 
 
+_P = []
+
+
+def _prog():
+    if not _P:
+        _P.append(gen.prog(CFG))
+    return _P[0]
+
+
 @st.composite
 def strat_spec(draw):
-    p = draw(gen.prog(CFG))
+    p = draw(_prog())
     if draw(st.integers(0, 3)) > 0:
         fill = draw(st.sampled_from([''] * 3 + FILLS))
         flag = draw(st.sampled_from(['', '', '+', '-']))
@@ -295,7 +304,7 @@ def strat_spec(draw):
 
 @st.composite
 def strat_sem(draw):
-    p = draw(gen.prog(CFG))
+    p = draw(_prog())
     return {'p': p, 'fill': draw(st.sampled_from([None, None, '*', '0', 'é', '5', '.', '_'])), 'flag': draw(st.sampled_from([None, '+', '-', '-'])),
             'align': draw(st.sampled_from(['<', '>', '^'])), 'width': draw(st.integers(0, 14)), 'ansi': draw(st.sampled_from(GOOD_ANSI))}
 
